@@ -54,6 +54,21 @@ func Deep(root any) string { return Of(root, Options{CapRegion: true}) }
 // State is Of without the capacity region (state keys).
 func State(root any) string { return Of(root, Options{}) }
 
+// opaque: synchronisation primitives and time zone tables are runtime-managed (pools are emptied by the GC, the
+// local zone is initialised lazily); their memory is not part of an object's observable state.
+func opaque(t reflect.Type) bool {
+	if t.Kind() == reflect.Pointer {
+		t = t.Elem()
+	}
+	switch t.PkgPath() {
+	case "sync", "sync/atomic":
+		return true
+	case "time":
+		return t.Name() == "Location"
+	}
+	return false
+}
+
 // addressable returns an addressable, non-read-only copy/view of v.
 func addressable(v reflect.Value) reflect.Value {
 	if !v.IsValid() {
@@ -70,14 +85,13 @@ func addressable(v reflect.Value) reflect.Value {
 func (w *walker) walk(v reflect.Value) {
 	w.nodes++
 	if w.nodes > w.opt.MaxNodes {
-		w.b.WriteString("<TRUNC>")
-		return
+		panic("snap: more than MaxNodes nodes (a truncated snapshot would compare equal silently)")
 	}
 	if !v.IsValid() {
 		w.b.WriteString("<invalid>")
 		return
 	}
-	if w.opt.SkipTypes[v.Type()] {
+	if w.opt.SkipTypes[v.Type()] || opaque(v.Type()) {
 		w.b.WriteString("<opaque " + v.Type().String() + ">")
 		return
 	}
@@ -152,10 +166,10 @@ func (w *walker) walk(v reflect.Value) {
 		}
 		if p.p != nil && v.Type().Elem().Size() > 0 {
 			if id, ok := w.ptrs[p]; ok {
-				fmt.Fprintf(&w.b, "@%d", id)
-			} else {
-				w.ptrs[p] = len(w.ptrs)
+				fmt.Fprintf(&w.b, "@%d", id) // same backing array seen before: do not walk it again (self-containing slices)
+				return
 			}
+			w.ptrs[p] = len(w.ptrs)
 		}
 		w.b.WriteByte('[')
 		full := v
@@ -196,9 +210,15 @@ func (w *walker) walk(v reflect.Value) {
 		for it.Next() {
 			kw := &walker{ptrs: map[pkey]int{}, opt: w.opt}
 			kw.walk(addressable(it.Key()))
-			kvs = append(kvs, kv{kw.b.String(), it.Key(), it.Value()})
+			// ties between keys with identical content (pointer keys) are broken by the value's content
+			vw := &walker{ptrs: map[pkey]int{}, opt: w.opt}
+			vw.walk(addressable(it.Value()))
+			kvs = append(kvs, kv{kw.b.String() + "\x00" + vw.b.String(), it.Key(), it.Value()})
 		}
 		sort.Slice(kvs, func(i, j int) bool { return kvs[i].ks < kvs[j].ks })
+		for i := range kvs {
+			kvs[i].ks = kvs[i].ks[:strings.Index(kvs[i].ks, "\x00")]
+		}
 		fmt.Fprintf(&w.b, "m%d#%d{", id, len(kvs))
 		for i, e := range kvs {
 			if i > 0 {
